@@ -2,6 +2,7 @@ import NitroVerif.Driver.Engine
 import NitroVerif.Driver.Codec
 import NitroVerif.Driver.Table
 import NitroVerif.Driver.Barrier
+import NitroVerif.Driver.RefCount
 namespace NitroVerif.Driver
 
 def engineByName (name : String) : Option Engine :=
@@ -10,6 +11,7 @@ def engineByName (name : String) : Option Engine :=
   | "table" => some tableEngine
   | "nodelist" => some nodeListEngine
   | "barrier" => some barrierEngine
+  | "refcount" => some refcountEngine
   | _ => none
 
 end NitroVerif.Driver
